@@ -922,3 +922,83 @@ Qed.
 Lemma gebr_once_in_order : forall ch a b,
   StronglySorted N.lt (map fst (gebr ch a b)) /\ NoDup (map fst (gebr ch a b)).
 Proof. intros; split; [apply gebr_sorted | apply gebr_nodup]. Qed.
+
+(* ------------------------------------------------------------------------------------------------ *)
+(* ProcessBlock under storage faults                                                                 *)
+(* ------------------------------------------------------------------------------------------------ *)
+
+(* a failed ProcessBlock leaves the store (both tables, hence the last processed block and every query) unchanged,
+   for every fault position and every block *)
+Theorem ger_fault_atomic : forall f st blk e st', process_block_f f st blk = (Some e, st') -> st' = st.
+Proof.
+  intros f st [b evs] e st' H. unfold process_block_f in H.
+  destruct (hits_at f GBlockIns 0 1); [now inversion H|].
+  destruct (existsb (N.eqb b) (s_blocks st)); [now inversion H|].
+  destruct (process_events_f f b _ evs); [now inversion H | discriminate].
+Qed.
+
+Corollary ger_fault_atomic_queries : forall f st blk e st' x, process_block_f f st blk = (Some e, st') ->
+  last_processed st' = last_processed st /\ s_rows st' = s_rows st /\ first_ger_after st' x = first_ger_after st x.
+Proof. intros f st blk e st' x H. apply ger_fault_atomic in H. now subst. Qed.
+
+Lemma process_events_f_ok : forall f b evs x x', process_events_f f b x evs = inr x' ->
+  apply_events b (g_rows x) evs = Some (g_rows x').
+Proof.
+  intros f b. induction evs as [|e evs IH]; intros x x' H; cbn [process_events_f apply_events] in *.
+  - now inversion H.
+  - destruct (process_event_f f b x e) as [err|x1] eqn:E; [discriminate|].
+    unfold process_event_f in E. unfold apply_event. destruct (l_rm e).
+    + destruct (hits_at f GGerDel _ _); [discriminate|]. inversion E; subst. cbn [g_rows] in IH.
+      now apply (IH _ _ H).
+    + destruct (hits_at f GGerIns _ _); [discriminate|].
+      destruct (existsb _ (g_rows x)); [discriminate|]. inversion E; subst. now apply (IH _ _ H).
+Qed.
+
+(* when ProcessBlock reports success the WHOLE block was recorded: the new store is the one of the fault-free
+   transaction (so no event was lost and the injected fault did not fire) *)
+Theorem ger_ok_records_whole_block : forall f st blk st',
+  process_block_f f st blk = (None, st') -> process_block st blk = Some st'.
+Proof.
+  intros f st [b evs] st' H. unfold process_block_f in H. unfold process_block.
+  destruct (hits_at f GBlockIns 0 1); [discriminate|].
+  destruct (existsb (N.eqb b) (s_blocks st)); [discriminate|].
+  destruct (process_events_f f b _ evs) as [err|x] eqn:E; [discriminate|].
+  apply process_events_f_ok in E. cbn [g_rows] in E. rewrite E. now inversion H.
+Qed.
+
+Lemma process_events_f_none : forall b evs x,
+  match process_events_f None b x evs with
+  | inl _ => apply_events b (g_rows x) evs = None
+  | inr x' => apply_events b (g_rows x) evs = Some (g_rows x')
+  end.
+Proof.
+  intros b. induction evs as [|e evs IH]; intros x; cbn [process_events_f apply_events]; [reflexivity|].
+  unfold process_event_f, apply_event, hits_at. destruct (l_rm e).
+  - apply (IH (mkGtx _ _ _)).
+  - destruct (existsb _ (g_rows x)); [reflexivity|]. apply (IH (mkGtx _ _ _)).
+Qed.
+
+Lemma process_events_f_none_no_fault : forall b evs x, process_events_f None b x evs <> inl GFault.
+Proof.
+  intros b. induction evs as [|e evs IH]; intros x; cbn [process_events_f]; [discriminate|].
+  unfold process_event_f, hits_at. destruct (l_rm e); [apply IH|].
+  destruct (existsb _ (g_rows x)); [discriminate | apply IH].
+Qed.
+
+(* without a fault the faulty model is the plain model *)
+Theorem ger_no_fault : forall st blk,
+  process_block_f None st blk =
+  match process_block st blk with Some st' => (None, st') | None => (Some GConstraint, st) end.
+Proof.
+  intros st [b evs]. unfold process_block_f, process_block, hits_at.
+  destruct (existsb (N.eqb b) (s_blocks st)); [reflexivity|].
+  pose proof (process_events_f_none b evs (mkGtx (s_rows st) 0 0)) as H. cbn [g_rows] in H.
+  pose proof (process_events_f_none_no_fault b evs (mkGtx (s_rows st) 0 0)) as G.
+  destruct (process_events_f None b _ evs) as [err|x]; rewrite H; [|reflexivity].
+  destruct err; [congruence | reflexivity].
+Qed.
+
+(* retry after a failure = the fault-free run on the state before the failure *)
+Theorem ger_retry_clean : forall f st blk e st1,
+  process_block_f f st blk = (Some e, st1) -> process_block_f None st1 blk = process_block_f None st blk.
+Proof. intros f st blk e st1 H. apply ger_fault_atomic in H. now subst. Qed.
